@@ -3,6 +3,7 @@ package main
 // Bounded stand-ins, structural (dataflow) obligations and replay.
 
 import (
+	"go/ast"
 	"time"
 	"context"
 	"encoding/json"
@@ -513,6 +514,39 @@ func checkGuardedGlobals(eng *Engine) extraResult {
 					}
 				}
 			}
+		}
+		// a named function all of whose uses (calls, or being handed to Once.Do) sit in package initialisers runs
+		// only during package initialisation, like a closure written inside init
+		usedOutsideInit := map[*ssa.Function]bool{}
+		usedAtAll := map[*ssa.Function]bool{}
+		for _, f := range fns {
+			for _, b := range f.Blocks {
+				for _, ins := range b.Instrs {
+					for _, op := range ins.Operands(nil) {
+						if op == nil || *op == nil {
+							continue
+						}
+						if callee, ok := (*op).(*ssa.Function); ok && callee.Pkg == sp && callee.Parent() == nil {
+							usedAtAll[callee] = true
+							if !isInitFn(f) {
+								usedOutsideInit[callee] = true
+							}
+						}
+					}
+				}
+			}
+		}
+		baseInit := isInitFn
+		isInitFn = func(f *ssa.Function) bool {
+			if baseInit(f) {
+				return true
+			}
+			for g := f; g != nil; g = g.Parent() {
+				if g.Parent() == nil && usedAtAll[g] && !usedOutsideInit[g] && !ast.IsExported(g.Name()) {
+					return true
+				}
+			}
+			return false
 		}
 		var globals []*ssa.Global
 		for _, m := range sp.Members {
